@@ -44,6 +44,8 @@ def load_mutants():
             mj = json.load(open(meta))
             if mj.get('obsolete'):
                 continue        # no longer a breaking change (a later repo fix made it harmless)
+            if mj.get('missed'):
+                continue        # recorded as not detected (DESIGN section 14, round 11): not an expectation of the self-test
             muts.append({'id': 'seeded-' + name, 'kind': 'break', 'props': [mj.get('check') or name[:3]],
                          'edits': [], 'patch': patch})
     bd = os.path.join(sd, 'benign')
